@@ -5,13 +5,12 @@ package bufcas
 // ---- shared helpers for the C08 lemmas of bufcas (file nodes, manifests, digests) ----
 
 // viDigest returns a shake256 Digest: concrete (64 bytes derived from seed) when sym is false, 64 fully symbolic
-// bytes when sym is true.
+// bytes when sym is true. (Also used by c13e.go of this directory - keep the signature.)
 func viDigest(sym bool, seed byte) Digest {
-	nsym := 0
 	if sym {
-		nsym = 64
+		return viDigestN(64, seed)
 	}
-	return viDigestN(nsym, seed)
+	return viDigestN(0, seed)
 }
 
 // viDigestN: the first nsym bytes of the value are symbolic, the rest concrete.
@@ -55,13 +54,14 @@ func refIHasByte(p string, c byte) bool {
 	return false
 }
 
-// viAcceptedNodes builds n file nodes with arbitrary paths (<= N bytes, every byte value) that NewFileNode accepts;
+// viAcceptedNodes builds n file nodes with arbitrary paths (<= N bytes, every byte value) that NewFileNode accepts
+// and digests whose first symDigestBytes value bytes are symbolic (the rest concrete, different per node);
 // paths not accepted end the path (they are outside the quantifier: "any valid relative path").
-func viAcceptedNodes(n int, maxLen int, symDigests bool) []FileNode {
+func viAcceptedNodes(n int, maxLen int, symDigestBytes int) []FileNode {
 	nodes := make([]FileNode, 0, n)
 	for i := 0; i < n; i++ {
 		p := verifNondetString(maxLen)
-		node, err := NewFileNode(p, viDigest(symDigests, byte(17*i+1)))
+		node, err := NewFileNode(p, viDigestN(symDigestBytes, byte(17*i+1)))
 		if err != nil {
 			verifAssume(false)
 		}
@@ -75,7 +75,7 @@ func viAcceptedNodes(n int, maxLen int, symDigests bool) []FileNode {
 // node has the same path and digest.
 func VerifLemma_C08A_ManifestRoundTrip() {
 	n := verifNondetChoice(verifParam("FILES") + 1)
-	nodes := viAcceptedNodes(n, verifParam("N"), verifParam("SYMDIGEST") != 0)
+	nodes := viAcceptedNodes(n, verifParam("N"), verifParam("SYMDIGEST"))
 	m, err := NewManifest(nodes)
 	if err != nil {
 		// duplicate paths: decided by C08-B
@@ -111,7 +111,7 @@ func VerifLemma_C08A_ManifestRoundTrip() {
 
 // VerifLemma_C08A_FileNodeRoundTrip: ParseFileNode(node.String()) returns an equal node for every accepted path.
 func VerifLemma_C08A_FileNodeRoundTrip() {
-	nodes := viAcceptedNodes(1, verifParam("N"), verifParam("SYMDIGEST") != 0)
+	nodes := viAcceptedNodes(1, verifParam("N"), verifParam("SYMDIGEST"))
 	node := nodes[0]
 	verifCover("node accepted")
 	if verifKnown("F5-filenode-double-space", refIHasDoubleSpace(node.Path())) {
@@ -180,7 +180,7 @@ func viPermute(nodes []FileNode) []FileNode {
 // GetFileNode/GetDigest find exactly the nodes, and every permutation of the input gives the same text.
 func VerifLemma_C08B_Canonical() {
 	n := verifNondetChoice(verifParam("FILES") + 1)
-	nodes := viAcceptedNodes(n, verifParam("N"), verifParam("SYMDIGEST") != 0)
+	nodes := viAcceptedNodes(n, verifParam("N"), verifParam("SYMDIGEST"))
 	dup := false
 	for i := 0; i < n; i++ {
 		for j := i + 1; j < n; j++ {
@@ -230,7 +230,7 @@ func VerifLemma_C08B_Canonical() {
 // VerifLemma_C08B_Absent: GetFileNode/GetDigest of a path that is not in the manifest return nil.
 func VerifLemma_C08B_Absent() {
 	n := verifNondetChoice(verifParam("FILES") + 1)
-	nodes := viAcceptedNodes(n, verifParam("N"), false)
+	nodes := viAcceptedNodes(n, verifParam("N"), 0)
 	m, err := NewManifest(nodes)
 	if err != nil {
 		return
